@@ -141,7 +141,7 @@ OUTER:
 
 			err = s.deletionPolicy.Cleanup(s.directory) // might as well cleanup while waiting
 			if err != nil {
-				s.config.AsyncError(err)
+				s.fireAsyncError(err)
 			}
 		}
 
@@ -183,7 +183,7 @@ func (s *Writer) pausePersisterForMergerCatchUp(persisterNotifier watcherChan,
 	if numFilesOnDisk > uint64(s.config.PersisterNapUnderNumFiles) {
 		err := s.deletionPolicy.Cleanup(s.directory)
 		if err != nil {
-			s.config.AsyncError(err)
+			s.fireAsyncError(err)
 		}
 		numFilesOnDisk, _ = s.directory.Stats()
 	}
